@@ -81,6 +81,7 @@ type Node struct {
 	SnapObl                 []uint64 // peers to which a MsgSnap was released and not yet reported
 	Stopped                 bool
 	ApplyPaused             bool // async: the apply thread is not scheduled
+	AppendPaused            bool // async: the append thread is not scheduled
 
 	shared   bool // referenced by more than one world: copy before writing
 	vsCache  *raft.VerifState
@@ -135,6 +136,7 @@ type StepRec struct {
 	ReadStates  []raft.ReadState
 
 	PropPayloads [][]byte
+	MixedPayloads [][]byte // normal entries following a configuration change in the same MsgProp
 	PropType     pb.EntryType
 	ReadCtx      []byte
 
@@ -183,6 +185,7 @@ type World struct {
 	PC      int // script position
 	Mons    []Monitor
 	Dead    bool // a panic happened; no successors
+	LastPanic any
 	Steps   int
 	Out     uint64 // running output hash (C19); not part of the key
 	keyBuf  []byte
@@ -632,7 +635,7 @@ func (w *World) crashRestart(n *Node, rec *StepRec, flags int) {
 	rec.Crashed = true
 	n.Pending, n.Stage = nil, 0
 	n.AppendQ, n.ApplyQ, n.LocalQ, n.SnapObl = nil, nil, nil, nil
-	n.ApplyPaused = false
+	n.ApplyPaused, n.AppendPaused = false, false
 	n.Inc++
 	if flags&CrashLoseUnsynced != 0 {
 		n.Disk.SetHardState(cloneHS(n.SyncedHS))
@@ -747,6 +750,7 @@ func (w *World) Apply(ev Event) (rec *StepRec) {
 			if r := recover(); r != nil {
 				rec.Panic = r
 				w.Dead = true
+				w.LastPanic = r
 			}
 		}()
 		w.exec(ev, n, rec)
@@ -873,7 +877,20 @@ func (w *World) exec(ev Event, n *Node, rec *StepRec) {
 		}
 		rec.PropType = typ
 		rec.PropPayloads = [][]byte{data}
-		rec.OpErr = n.RN.ProposeConfChange(cc)
+		if ev.Peer == 0 {
+			rec.OpErr = n.RN.ProposeConfChange(cc)
+		} else {
+			// one MsgProp: the configuration change followed by normal entries
+			ents := []*pb.Entry{{Type: typ.Enum(), Data: data}}
+			k := w.PropSeq
+			w.PropSeq++
+			for j := 0; j < int(ev.Peer); j++ {
+				p := w.payload(k, j+1, 0)
+				rec.MixedPayloads = append(rec.MixedPayloads, p)
+				ents = append(ents, &pb.Entry{Data: p})
+			}
+			rec.OpErr = n.RN.Step(&pb.Message{Type: pb.MsgProp.Enum(), From: new(n.ID), Entries: ents})
+		}
 	case EvReadIndex:
 		w.Budget[BRead]--
 		ctx := []byte(fmt.Sprintf("r%d", w.ReadSeq))
@@ -936,6 +953,14 @@ func (w *World) exec(ev Event, n *Node, rec *StepRec) {
 		n.Stopped = true
 	case EvPauseApply:
 		n.ApplyPaused = ev.Arg == 1
+		if ev.Arg == 1 {
+			w.Budget[BPause]--
+		}
+	case EvPauseAppend:
+		n.AppendPaused = ev.Arg == 1
+		if ev.Arg == 1 {
+			w.Budget[BPause]--
+		}
 	case EvDelay:
 		w.Budget[BDelay]--
 		for k := range w.Net {
@@ -1015,7 +1040,7 @@ func (w *World) own(i int) *Node {
 	}
 	d := n.Disk.VerifClone()
 	nn := &Node{ID: n.ID, Inc: n.Inc, Cfg: n.Cfg, Disk: d, RN: n.RN.VerifClone(d), SyncedHS: n.SyncedHS, App: n.App,
-		Pending: n.Pending, Stage: n.Stage, Stopped: n.Stopped, ApplyPaused: n.ApplyPaused,
+		Pending: n.Pending, Stage: n.Stage, Stopped: n.Stopped, ApplyPaused: n.ApplyPaused, AppendPaused: n.AppendPaused,
 		AppendQ: append([]*pb.Message(nil), n.AppendQ...), ApplyQ: append([]*pb.Message(nil), n.ApplyQ...),
 		LocalQ: append([]*pb.Message(nil), n.LocalQ...), SnapObl: append([]uint64(nil), n.SnapObl...)}
 	nn.fp = n.fp
